@@ -1080,3 +1080,223 @@ pub fn info_attr_corpus(doc: &str, expected: &str) -> Outcome {
     };
     Outcome { observed: observed.replace('\u{1}', " | "), expected: expected.replace('\u{1}', " | "), note: String::new() }
 }
+
+// ------------------------------------------------------------------------------------------------
+// C15: edits that report success keep the document serializable and faithful.  One document, the data-editing and creating calls
+// of the DOM with argument strings over the markup-significant characters, sequences of one and two calls.  When every call
+// reported success: the serialization parses completely and the re-parsed document reports the same content (element names,
+// attribute names and values, character data with adjacent text / CDATA runs joined, comments, PI targets and data).
+//   edit = <target>.<op>.<arg>   targets: T text, K comment, D cdata, P pi, A attribute a, R the root element
+//   ops on T K D: ins0 insE (insert_data at 0 / at the end) app set rep (replace_data(0,1,arg)) del0 delM (delete 1 char at 0 / in the middle) split (T, D)
+//   P: set   A: setv (set_value)   R: attr (set_attribute(arg, "v")) attrv (set_attribute("n", arg)) text comment cdata pi pit elem (create_* with arg, appended)
+
+pub const EDIT_DOC: &str = "<r a=\"v\"><!--c-x-c-->t]x]>t<![CDATA[d]x]>d]]><?p x?><e/></r>";
+pub const EDIT_ARGS: [&str; 19] = ["-", "--", "->", "]", "]]", "]]>", ">", "<", "&", "?", "?>", "\"", "'", "a", "\u{1}", "&amp;", "\u{e9}", "", " "];
+
+fn edit_dump(doc: &xml_dom::XmlDocument) -> String {
+    use xml_dom::{Attr, CharacterData};
+    fn walk(n: &xml_dom::XmlNode, out: &mut Vec<String>) {
+        let mut run = String::new();
+        let mut in_run = false;
+        for c in n.child_nodes().iter() {
+            let text = match &c {
+                xml_dom::XmlNode::Text(t) => Some(t.data().unwrap_or_else(|_| "<data error>".into())),
+                xml_dom::XmlNode::CData(t) => Some(t.data().unwrap_or_else(|_| "<data error>".into())),
+                xml_dom::XmlNode::ExpandedText(t) => Some(t.data().unwrap_or_else(|_| "<data error>".into())),
+                xml_dom::XmlNode::EntityReference(t) => Some(t.node_value().ok().flatten().unwrap_or_default()),
+                _ => None,
+            };
+            if let Some(t) = text {
+                run.push_str(&t);
+                in_run = true;
+                continue;
+            }
+            if in_run {
+                if !run.is_empty() {
+                    out.push(format!("text {:?}", run));
+                }
+                run.clear();
+                in_run = false;
+            }
+            match &c {
+                xml_dom::XmlNode::Element(_) => {
+                    let mut attrs: Vec<String> = vec![];
+                    if let Some(map) = c.attributes() {
+                        for a in map.iter() {
+                            attrs.push(format!("{}={:?}", a.node_name(), a.value().unwrap_or_else(|_| "<value error>".into())));
+                        }
+                    }
+                    attrs.sort();
+                    out.push(format!("<{} {}>", c.node_name(), attrs.join(" ")));
+                    walk(&c, out);
+                    out.push("</>".to_string());
+                }
+                xml_dom::XmlNode::Comment(k) => out.push(format!("comment {:?}", k.data().unwrap_or_default())),
+                xml_dom::XmlNode::PI(_) => out.push(format!("pi {} {:?}", c.node_name(), c.node_value().ok().flatten().unwrap_or_default())),
+                xml_dom::XmlNode::DocumentType(_) => {}
+                other => out.push(format!("other {}", other.node_name())),
+            }
+        }
+        if in_run && !run.is_empty() {
+            out.push(format!("text {:?}", run));
+        }
+    }
+    let mut out = vec![];
+    walk(&xml_dom::AsNode::as_node(doc), &mut out);
+    out.join(" ")
+}
+
+fn edit_apply(doc: &xml_dom::XmlDocument, edit: &str) -> Result<(), String> {
+    use xml_dom::{AsNode, AttrMut, CharacterData, CharacterDataMut, ElementMut, ProcessingInstructionMut, TextMut};
+    let mut it = edit.splitn(3, '.');
+    let (target, op, arg) = (it.next().unwrap_or(""), it.next().unwrap_or(""), it.next().unwrap_or(""));
+    let r = doc.document_element().map_err(|e| format!("{:?}", e))?;
+    let kids: Vec<xml_dom::XmlNode> = r.child_nodes().iter().collect();
+    let cls = |e: xml_dom::error::Error| format!("{:?}", e);
+    fn chardata<T: CharacterDataMut + CharacterData>(t: &T, op: &str, arg: &str) -> Option<xml_dom::error::Result<()>> {
+        let len = t.length();
+        Some(match op {
+            "ins0" => t.insert_data(0, arg),
+            "insE" => t.insert_data(len, arg),
+            "app" => t.append_data(arg),
+            "set" => t.set_data(arg),
+            "rep" => t.replace_data(0, 1, arg),
+            "del0" => t.delete_data(0, 1),
+            "delM" => t.delete_data(len / 2, 1),
+            _ => return None,
+        })
+    }
+    let find = |want: &str| kids.iter().find(|k| match (want, k) {
+        ("T", xml_dom::XmlNode::Text(_)) | ("K", xml_dom::XmlNode::Comment(_)) | ("D", xml_dom::XmlNode::CData(_)) | ("P", xml_dom::XmlNode::PI(_)) => true,
+        _ => false,
+    });
+    let res: xml_dom::error::Result<()> = match target {
+        "T" => match find("T") {
+            Some(xml_dom::XmlNode::Text(t)) => {
+                if op == "split" {
+                    t.split_text(t.length() / 2).map(|_| ())
+                } else {
+                    chardata(t, op, arg).unwrap_or(Ok(()))
+                }
+            }
+            _ => Ok(()),
+        },
+        "K" => match find("K") {
+            Some(xml_dom::XmlNode::Comment(t)) => chardata(t, op, arg).unwrap_or(Ok(())),
+            _ => Ok(()),
+        },
+        "D" => match find("D") {
+            Some(xml_dom::XmlNode::CData(t)) => {
+                if op == "split" {
+                    t.split_text(t.length() / 2).map(|_| ())
+                } else {
+                    chardata(t, op, arg).unwrap_or(Ok(()))
+                }
+            }
+            _ => Ok(()),
+        },
+        "P" => match find("P") {
+            Some(xml_dom::XmlNode::PI(p)) => p.set_data(arg),
+            _ => Ok(()),
+        },
+        "A" => match Element::get_attribute_node(&r, "a") {
+            Some(a) => a.set_value(arg),
+            None => Ok(()),
+        },
+        _ => match op {
+            "attr" => r.set_attribute(arg, "v"),
+            "attrv" => r.set_attribute("n", arg),
+            "text" => r.append_child(doc.create_text_node(arg).as_node()).map(|_| ()),
+            "comment" => r.append_child(doc.create_comment(arg).as_node()).map(|_| ()),
+            "cdata" => r.append_child(doc.create_cdata_section(arg).as_node()).map(|_| ()),
+            "pi" => doc.create_processing_instruction("q", arg).and_then(|p| r.append_child(p.as_node()).map(|_| ())),
+            "pit" => doc.create_processing_instruction(arg, "x").and_then(|p| r.append_child(p.as_node()).map(|_| ())),
+            "elem" => doc.create_element(arg).and_then(|e| r.append_child(e.as_node()).map(|_| ())),
+            _ => Ok(()),
+        },
+    };
+    res.map_err(cls)
+}
+
+fn own_data_invalid(doc: &xml_dom::XmlDocument) -> bool {
+    use xml_dom::CharacterData;
+    fn walk(n: &xml_dom::XmlNode) -> bool {
+        for c in n.child_nodes().iter() {
+            let bad = match &c {
+                xml_dom::XmlNode::Text(t) => t.data().map(|d| d.contains("]]>")).unwrap_or(false),
+                xml_dom::XmlNode::CData(t) => t.data().map(|d| d.contains("]]>")).unwrap_or(false),
+                xml_dom::XmlNode::Comment(t) => t.data().map(|d| d.contains("--") || d.ends_with('-')).unwrap_or(false),
+                _ => false,
+            };
+            if bad || walk(&c) {
+                return true;
+            }
+        }
+        false
+    }
+    walk(&xml_dom::AsNode::as_node(doc))
+}
+
+pub fn dom_edit_roundtrip(edits: &str) -> Outcome {
+    let mut expected = "faithful".to_string();
+    let observed = match catch_unwind(AssertUnwindSafe(|| {
+        let (_, doc) = xml_dom::XmlDocument::from_raw(EDIT_DOC).unwrap();
+        for e in edits.split(';').filter(|s| !s.is_empty()) {
+            // a panic inside a call is C13's matter (the factories are a recorded finding there)
+            match catch_unwind(AssertUnwindSafe(|| edit_apply(&doc, e))) {
+                Ok(Ok(())) => {}
+                Ok(Err(_)) => return "faithful".to_string(), // a refused call: nothing is claimed about this history
+                Err(_) => return "faithful".to_string(),
+            }
+        }
+        // delete_data (and replace_data / set_data, which delete) cannot refuse and can leave data that is invalid ON ITS OWN ("--"
+        // in a comment, "]]>"): the three recorded open findings of C15, each an obligation of units/c16_chardata.py.  Such a
+        // history is theirs; this grid is about what else can go wrong.
+        if own_data_invalid(&doc) {
+            return "faithful".to_string();
+        }
+        let reported = edit_dump(&doc);
+        let printed = format!("{}", doc);
+        // (re-parsed with references expanded: what the serialization DENOTES)
+        let back = match xml_dom::XmlDocument::from_raw_with_context(printed.as_str(), xml_dom::Context::from_text_expanded(true)) {
+            Ok((rest, d)) if rest.is_empty() => d,
+            Ok((rest, _)) => return format!("every call reported success, but the serialization {:?} is not parsed completely (rest {:?})", printed, rest),
+            Err(_) => return format!("every call reported success, but the serialization {:?} is rejected", printed),
+        };
+        let again = edit_dump(&back);
+        if again != reported {
+            return format!("the serialization {:?} denotes [{}], the DOM reports [{}]", printed, again, reported);
+        }
+        "faithful".to_string()
+    })) {
+        Ok(s) => s,
+        Err(e) => {
+            expected = "no panic".to_string();
+            format!("PANIC({}) while printing or re-parsing", e.downcast_ref::<&str>().map(|s| s.to_string()).or_else(|| e.downcast_ref::<String>().cloned()).unwrap_or_default())
+        }
+    };
+    Outcome { observed, expected, note: format!("document {}", EDIT_DOC) }
+}
+
+pub fn edit_singles() -> Vec<String> {
+    let mut out = vec![];
+    for t in ["T", "K", "D"] {
+        for op in ["ins0", "insE", "app", "set", "rep"] {
+            for a in EDIT_ARGS {
+                out.push(format!("{}.{}.{}", t, op, a));
+            }
+        }
+        out.push(format!("{}.del0.", t));
+        out.push(format!("{}.delM.", t));
+    }
+    out.push("T.split.".to_string());
+    out.push("D.split.".to_string());
+    for a in EDIT_ARGS {
+        out.push(format!("P.set.{}", a));
+        out.push(format!("A.setv.{}", a));
+        for op in ["attr", "attrv", "text", "comment", "cdata", "pi", "pit", "elem"] {
+            out.push(format!("R.{}.{}", op, a));
+        }
+    }
+    out
+}
